@@ -319,11 +319,23 @@ func (P *Prog) Func(rel, name string) *ssa.Function {
 func (P *Prog) funcOpt(rel, name string) *ssa.Function {
 	if o := P.pkg(rel).Types.Scope().Lookup(name); o != nil {
 		if f, ok := o.(*types.Func); ok {
-			return P.SSA.FuncValue(f)
+			fn := P.SSA.FuncValue(f)
+			P.noteFunc(rel, "", name, fn)
+			return fn
 		}
 		return nil
 	}
 	return P.renamedFunc(rel, "", name)
+}
+
+// methodOptR: like methodOpt for a rule subject that may have been inlined away:
+// found by name, or — renamed — by the fingerprint the baseline keeps of it.
+func (P *Prog) methodOptR(rel, typ, name string) *ssa.Function {
+	if fn := P.methodOpt(rel, typ, name); fn != nil {
+		P.noteFunc(rel, typ, name, fn)
+		return fn
+	}
+	return P.renamedFunc(rel, typ, name)
 }
 
 // Method resolves method name of type typ (pointer or value receiver).
